@@ -126,7 +126,7 @@ static int check_f_flag(AsmContext *asm_context, int value, int flag)
 {
   if (flag != FLAG_B && (value & 1) != 0)
   {
-    print_error(asm_context, "Address not on 16 bit boundary");
+    print_warning(asm_context, "Address not on 16 bit boundary");
   }
 
   if (value < 0 || value > 0x1fff)
@@ -142,7 +142,7 @@ static int check_f_64k(AsmContext *asm_context, int value)
 {
   if ((value & 1) != 0)
   {
-    print_error(asm_context, "Address not on 16 bit boundary");
+    print_warning(asm_context, "Address not on 16 bit boundary");
   }
 
   if (value < 0 || value > 0xfffe)
